@@ -31,6 +31,7 @@ from taskiq import ScheduleSource, TaskiqScheduler  # noqa: E402
 from taskiq.abc.broker import AsyncBroker  # noqa: E402
 from taskiq.cli.scheduler import run as sched_run  # noqa: E402
 from taskiq.exceptions import ScheduledTaskCancelledError  # noqa: E402
+from taskiq.kicker import AsyncKicker  # noqa: E402
 from taskiq.scheduler.scheduled_task import ScheduledTask  # noqa: E402
 
 B0 = _dt.datetime(2024, 5, 1, 10, 0, 0, tzinfo=_dt.timezone.utc)
@@ -95,13 +96,14 @@ def mk_task(spec: Dict[str, Any]) -> ScheduledTask:
 
 
 class ScriptedSource(ScheduleSource):
-    def __init__(self, env: Env, idx: int, spec: Dict[str, Any]) -> None:
+    def __init__(self, env: Env, idx: int, spec: Dict[str, Any], broker: Any = None) -> None:
         self.env = env
         self.idx = idx
         self.spec = spec
         self.items: Dict[int, ScheduledTask] = {}
         self.specs: Dict[int, Dict[str, Any]] = {}
         self.npolls = 0
+        self.broker = broker
         for s in spec.get("sched", []):
             self.add(s)
         if spec.get("pre") == "async" and spec.get("future"):
@@ -118,8 +120,24 @@ class ScriptedSource(ScheduleSource):
             self.post_send = self._post_sync  # type: ignore[method-assign]
 
     def add(self, s: Dict[str, Any]) -> None:
-        self.items[s["sid"]] = mk_task(s)
         self.specs[s["sid"]] = s
+        if s.get("viak") and self.broker is not None:
+            # the schedule is created the public way: kicker.schedule_by_cron / schedule_by_time -> source.add_schedule()
+            want = mk_task(s)
+            kicker = AsyncKicker(task_name=want.task_name, broker=self.broker, labels={}).with_labels(
+                **{k: v for k, v in want.labels.items() if k != "schedule_id"}).with_schedule_id(want.schedule_id)
+            if want.cron is not None:
+                coro = kicker.schedule_by_cron(self, want.cron, *want.args, **want.kwargs)
+            else:
+                coro = kicker.schedule_by_time(self, want.time, *want.args, **want.kwargs)
+            created = self.env.loop.run_coro(coro)
+            if created.schedule_id != want.schedule_id or s["sid"] not in self.items:
+                self.env.rec("loop_raised", s="schedule_not_created")
+            return
+        self.items[s["sid"]] = mk_task(s)
+
+    async def add_schedule(self, schedule: ScheduledTask) -> None:
+        self.items[int(schedule.schedule_id[1:])] = schedule
 
     async def get_schedules(self) -> List[ScheduledTask]:
         self.npolls += 1
@@ -234,6 +252,10 @@ class RecBroker(AsyncBroker):
         self.nk[sid] = self.nk.get(sid, 0) + 1
         fail = [sid, self.nk[sid]] in self.cfg.get("kickfail", [])
         exp_labels = {"lbl": f"L{sid}", "n": sid, "schedule_id": f"s{sid}"}
+        if self.cfg.get("_viak", {}).get(sid) and tm.labels.get("n") == str(sid):
+            # a schedule created through kicker.schedule_by_*() stores its labels in wire form (strings): that is the
+            # schedule's payload (observation recorded in DESIGN.md: label types are not kept on this route)
+            tm.labels["n"] = sid
         tn = self.cfg.get("_tn", {}).get(sid, sid)
         payload_ok = ((tm.task_name == f"task{tn}" or from_label_source) and tm.args == PAYLOAD_ARGS + [sid] and tm.kwargs == dict(PAYLOAD_KW, sid=sid)
                       and (from_label_source or tm.labels == exp_labels) and tm.labels.get("lbl") == f"L{sid}"
@@ -263,6 +285,7 @@ def normalize(cfg: Dict[str, Any]) -> Dict[str, Any]:
         srcs.append(s2)
     c["srcs"] = srcs
     c["_tn"] = {x["sid"]: (x["tn"] or x["sid"]) for s_ in srcs for x in s_["sched"]}
+    c["_viak"] = {x["sid"]: x["viak"] for s_ in srcs for x in s_["sched"]}
     c["minute"] = 60000
     c["second"] = 1000
     return c
@@ -270,7 +293,8 @@ def normalize(cfg: Dict[str, Any]) -> Dict[str, Any]:
 
 def norm_sched(x: Dict[str, Any]) -> Dict[str, Any]:
     return {"sid": x["sid"], "kind": x["kind"], "mins": list(x.get("mins", [])), "T": x.get("T", 0), "cancel": bool(x.get("cancel", False)),
-            "naive": bool(x.get("naive", False)), "tn": x.get("tn", 0), "lblsid": bool(x.get("lblsid", False))}
+            "naive": bool(x.get("naive", False)), "tn": x.get("tn", 0), "lblsid": bool(x.get("lblsid", False)),
+            "viak": bool(x.get("viak", False))}
 
 
 def run(scn: Dict[str, Any]) -> List[Dict[str, Any]]:
@@ -281,7 +305,7 @@ def run(scn: Dict[str, Any]) -> List[Dict[str, Any]]:
         _install_clock(loop)
         loop._vnow = cfg["start"] / 1000.0
         broker = RecBroker(env, cfg)
-        sources = [make_label_source(env, i, s, broker) if scn["cfg"]["srcs"][i - 1].get("label") else ScriptedSource(env, i, s)
+        sources = [make_label_source(env, i, s, broker) if scn["cfg"]["srcs"][i - 1].get("label") else ScriptedSource(env, i, s, broker)
                    for i, s in enumerate(cfg["srcs"], start=1)]
         scheduler = TaskiqScheduler(broker, sources)  # type: ignore[arg-type]
         via = scn["cfg"].get("via", "loop")
@@ -310,6 +334,7 @@ def run(scn: Dict[str, Any]) -> List[Dict[str, Any]]:
             if op == "add":
                 spec = norm_sched(step[3])
                 cfg["_tn"][spec["sid"]] = spec["tn"] or spec["sid"]
+                cfg["_viak"][spec["sid"]] = spec["viak"]
                 env.rec("add", src=src, sid=spec["sid"], s=spec["kind"], n=spec["T"], ok=not spec["cancel"], ids=spec["mins"])
                 sources[src - 1].add(spec)
             elif op == "remove":
